@@ -664,6 +664,9 @@ pub fn check_c08(scn: &Scenario) -> Checked {
     {
         let via_original = induced.iter().any(|c| {
             matches!(scn.threads.get(c.op.0 as usize).and_then(|t| t.get(c.op.1 as usize)), Some(Op::Call { slot: 0, .. }))
+        }) || res.log.ops.iter().any(|r| {
+            matches!(r.result, OpResult::Panicked(_))
+                && matches!(scn.threads.get(r.thread as usize).and_then(|t| t.get(r.index as usize)), Some(Op::Own { slot: 0, .. }))
         });
         if via_original {
             stats.nontrivial = false;
